@@ -1780,6 +1780,32 @@ func randomRun(rq RandReq) (res Result) {
 			}
 			ev(map[string]interface{}{"e": "pause", "what": "flush"})
 			res.Stats["flushes"]++
+			if rng.Float64() < rq.PFail/2 {
+				// read faults: with every page out of the cache and the data file unreadable, statements fail (with an error
+				// value); once the file is readable again every table reads as before - a failed read leaves nothing behind
+				storage.VerifEvictClean(w.sess.RelationService)
+				storage.VerifBreakFile(w.sess.RelationService)
+				for _, t := range tables {
+					var perr interface{}
+					func() {
+						defer func() { perr = recover() }()
+						w.selectAll(t)
+						w.selectAll(t)
+					}()
+					if perr != nil {
+						storage.VerifRepairFile()
+						return fail(fmt.Sprintf("SELECT * FROM %s panicked while the data file could not be read: %v", t, perr))
+					}
+				}
+				if _, rerr := storage.VerifRepairFile(); rerr != nil {
+					res.Diverged = "cannot reopen the data file after the read faults: " + rerr.Error()
+					return
+				}
+				res.Stats["read-fault-rounds"]++
+				if !observe(tables) {
+					return
+				}
+			}
 		}
 		if rq.GraphEvery > 0 && i%rq.GraphEvery == 0 {
 			if !dumpGraph() {
